@@ -1,6 +1,6 @@
 import json, sys
 name, prop, change, needs, caught, missed = sys.argv[1:7]
-j = {"property": prop, "source": "independent sub-agent (round 3/4), told what the earlier seeded changes for this property did and asked for a different mechanism",
+j = {"property": prop, "source": "independent sub-agent (later rounds), told what the earlier seeded changes for this property did and asked for a different mechanism",
      "change": change, "needs_to_manifest": needs,
      "verified": "tools/seed_eval.sh: 316 tests pass with the change; the sub-agent's demo exits non-zero with it and 0 without; our checks were run against a scratch copy of /repo's tree with the patch applied",
      "caught_by": [c for c in caught.split("|") if c]}
